@@ -49,6 +49,13 @@ const ca = "^\\s*\\'([^']*)\\'\\s*,\\s*([0-9]*)\\s*,\\s*([0-9hmns\\.]*)\\s*"
 
 var care = regexp.MustCompile(ca)
 
+// regexp for parsing a whole condition command in one pass, once cire has identified the
+// line as a condition: the argument list is closed by the first '>' that follows it, so
+// that the message to send may itself contain '>' (as may the quoted pattern)
+const cf = "^\\s*<\\s*\\'([^']*)\\'\\s*,\\s*([0-9]*)\\s*,\\s*([0-9hmns\\.]*)\\s*>\\s*(.*)"
+
+var cfre = regexp.MustCompile(cf)
+
 // regexp for parsing filter commands
 //^\s*\|\s*(reset|RESET|accept|ACCEPT|Accept|deny|DENY|Deny|[-+adrADR])\s*\>\s*(.*)
 /* examples:
